@@ -184,6 +184,11 @@ func (p *Program) typeDecls(b *strings.Builder) {
 		case KNamedInt:
 			fmt.Fprintf(b, "type T%d uint64\n\nfunc mkT%d(v uint64) %s { return T%d(v) }\nfunc unT%d(x %s) uint64 { return uint64(x) }\n\n", id, id, te, id, id, te)
 		case KStruct:
+			if p.FBLit {
+				// (a value whose E is not nil shows as the complement of its token)
+				fmt.Fprintf(b, "type T%d struct {\n\tV uint64\n\tS string\n\tE error\n}\n\nfunc mkT%d(v uint64) %s { return T%d{V: v} }\nfunc unT%d(x %s) uint64 {\n\tif x.E != nil {\n\t\treturn ^x.V\n\t}\n\treturn x.V\n}\n\n", id, id, te, id, id, te)
+				continue
+			}
 			fmt.Fprintf(b, "type T%d struct {\n\tV uint64\n\tS string\n}\n\nfunc mkT%d(v uint64) %s { return T%d{V: v} }\nfunc unT%d(x %s) uint64 { return x.V }\n\n", id, id, te, id, id, te)
 		case KPtr:
 			fmt.Fprintf(b, "type T%ds struct{ V uint64 }\n\nfunc mkT%d(v uint64) %s {\n\tif v == 0 {\n\t\treturn nil\n\t}\n\treturn &T%ds{V: v}\n}\nfunc unT%d(x %s) uint64 {\n\tif x == nil {\n\t\treturn 0\n\t}\n\treturn x.V\n}\n\n", id, id, te, id, id, te)
@@ -938,6 +943,9 @@ func (pr *printer) source() string {
 		b.WriteString("func Run(x *rt.Exec) (rerr error) {\n")
 	}
 	b.WriteString("\th := &hands{x}\n\t_ = h\n")
+	if p.FBLit {
+		b.WriteString("\tvar err error\n\t_ = err\n")
+	}
 	b.WriteString(resDecl.String())
 	b.WriteString(pr.pre.String())
 	if p.Bare {
@@ -1019,6 +1027,11 @@ func (pr *printer) taskOpt(t *Task) string {
 				if pr.p.Types[o] == KF64 {
 					// a constant, written out with all the digits it needs
 					a = append(a, strconv.FormatFloat(math.Float64frombits(ConstFBTok(pr.p.Name, t.Fn.ID, i)), 'g', -1, 64))
+					continue
+				}
+				if pr.p.ConstFB(o) {
+					// a composite literal without a call, naming the function's own err
+					a = append(a, fmt.Sprintf("T%d{V: %#x, E: err}", o, ConstFBTok(pr.p.Name, t.Fn.ID, i)))
 					continue
 				}
 				a = append(a, pr.wp(fmt.Sprintf("mkT%d(x.FB(%d, %d))", o, t.Fn.ID, i), fmt.Sprintf("mkT%d(x.Poison(%d))", o, pr.site)))
